@@ -159,6 +159,16 @@ def score_format(run):
     t = z3.BitVec('time_ms', 128)
     ex.assume(z3.ULT(t, 1 << 64))
     tv = Enum(z3.If(t_some, z3.BitVecVal(1, 64), z3.BitVecVal(0, 64)), {1: (t,), 0: ()})
+    templates = []
+
+    def fmt_args(ctx, *a):
+        # which format template is used on which path (the strings themselves stay opaque)
+        from mirsym.models import as_str, StrV
+        t = as_str(ctx, a[0]) if a else None
+        if isinstance(t, StrV):
+            templates.append((ctx.st.guard, t.s))
+        return Opaque('fmt::Arguments', None)
+    ex.model(r'^std::fmt::Arguments(::<.*>)?::(new|from_str|from_str_nonconst|new_const|new_v1).*$', fmt_args)
     for npv in (0, 1, 3):
         pvp = ex.alloc(st, Seq.of([env.G.ply_value(0, 0)] * npv))
         callee = env.item('log_uci_info')
@@ -167,6 +177,21 @@ def score_format(run):
     for ob, qq in run.check_obligations(ex, name):
         report(run, qq, name, 'panic reachable in log_uci_info: %s %s' % (ob.where.split('::')[-1], ob.msg[:80]))
     run.decide('%s/reached' % name, [z3.BoolVal(len(env.env['events']) < 3)], kind='smt', note='log_uci_info produced a line for each of the three pv lengths')
+    # cp vs mate: a mate score (MIN + ply or its negation, ply <= 255) is reported as `score mate`, a static-evaluation
+    # score (|s| <= 30000) as `score cp`
+    mate_t = b_or(*[g for g, t in templates if 'score mate' in t])
+    cp_t = b_or(*[g for g, t in templates if 'score cp' in t])
+    is_mate = z3.Or(sc <= SS.MIN16 + 255, sc >= SS.MAX16 - 254)
+    is_eval = z3.And(sc >= -30000, sc <= 30000)
+    if not [1 for _, t in templates if 'score' in t]:
+        run.inconclusive.append('%s: no score template seen in log_uci_info' % name)
+    else:
+        q = run.decide('%s/mate-scores-as-mate-eval-scores-as-cp' % name, ex.pre + [has, z3.Or(z3.And(is_mate, z3.Not(zb(mate_t))), z3.And(is_eval, z3.Not(zb(cp_t))),
+                                                                                              z3.And(is_eval, zb(mate_t)), z3.And(is_mate, zb(cp_t)))], kind='smt',
+                       note='score <= MIN+255 or >= MAX-254 (mate in <= 255 plies) is printed as mate; |score| <= 30000 as cp')
+        if q.verdict == 'sat':
+            v = q.model.eval(sc, model_completion=True)
+            report(run, q, name, 'score %s is reported with the wrong unit (cp / mate)' % v)
 
 
 def worker(run, job):
